@@ -73,6 +73,10 @@ pub(crate) fn process_batch_response(
 
 	for rp in rps {
 		let id = rp.id().try_parse_inner_as_number()?;
+		// Only an ID of the kind this client uses can be the ID of one of its requests.
+		if !manager.is_own_id(rp.id(), id) {
+			return Err(InvalidRequestId::NotPendingRequest(rp.id().to_string()));
+		}
 		let maybe_elem =
 			id.checked_sub(start_idx).and_then(|p| p.try_into().ok()).and_then(|p: usize| responses.get_mut(p));
 
